@@ -47,6 +47,10 @@ class RegWorld:
                 n, d = self.factors[a["u"]]
                 db.AddUnit(a["qt"], "name of " + a["u"], a["u"], MakeBaseToCustomary(0.0, float(n), float(d), 0.0),
                            MakeCustomaryToBase(0.0, float(n), float(d), 0.0), default_category=_opt(a["dc"]))
+            elif op == "AddUnitBad":
+                db.AddUnit(a["qt"], "name of " + a["u"], a["u"], "1000.0", "0.001")        # expressions without the %f / x placeholder
+            elif op == "CountUnits":
+                out["x"] = float(len(db.GetUnits()))
             elif op == "AddUnitBase":
                 db.AddUnitBase(a["qt"], "name of " + a["u"], a["u"])
             elif op == "AddCategory":
